@@ -70,12 +70,52 @@ class VSlots:
         return 'VSlots#%d' % self.n
 
 
+TOUCHED = []     # methods of application containers that were run while the agent looked at them
+
+
 class VList(list):
-    """A list of the application's own (a result set, a UserList-like class)."""
+    """A list of the application's own (a result set, a lazily loading collection): its methods are application code -
+    showing the value must not run them."""
+
+    def __iter__(self):
+        TOUCHED.append('VList.__iter__')
+        return list.__iter__(self)
+
+    def __len__(self):
+        TOUCHED.append('VList.__len__')
+        return list.__len__(self)
+
+    def __getitem__(self, i):
+        TOUCHED.append('VList.__getitem__')
+        return list.__getitem__(self, i)
 
 
 class VDict(dict):
-    """A mapping of the application's own (a settings object, a JSON document class)."""
+    """A mapping of the application's own (a settings object that records which keys were read)."""
+
+    def keys(self):
+        TOUCHED.append('VDict.keys')
+        return dict.keys(self)
+
+    def items(self):
+        TOUCHED.append('VDict.items')
+        return dict.items(self)
+
+    def __iter__(self):
+        TOUCHED.append('VDict.__iter__')
+        return dict.__iter__(self)
+
+    def __len__(self):
+        TOUCHED.append('VDict.__len__')
+        return dict.__len__(self)
+
+    def __contains__(self, k):
+        TOUCHED.append('VDict.__contains__')
+        return dict.__contains__(self, k)
+
+    def __getitem__(self, k):
+        TOUCHED.append('VDict.__getitem__')
+        return dict.__getitem__(self, k)
 
 
 class VTuple(tuple):
@@ -110,9 +150,16 @@ class Built:
         self.names = {}       # node -> child names in order
 
 
+def plain_len(obj):
+    for base in (dict, list, tuple, set, frozenset):
+        if isinstance(obj, base):
+            return base.__len__(obj)
+    return len(obj)
+
+
 def text_of(kind, obj):
     if kind in ('list', 'tuple', 'dict', 'set'):
-        return 'Size: %d' % len(obj)
+        return 'Size: %d' % plain_len(obj)
     if kind == 'iter':
         return 'Iterator of type: %s' % type(obj)
     if kind == 'sstr':
@@ -199,6 +246,7 @@ def build(inst):
     b.node_of = ids
     for n, o in b.objs.items():
         b.slen[n] = len(text_of(kind[n - 1], o))
+    del TOUCHED[:]
     return b
 
 
@@ -229,6 +277,12 @@ def frames_source(counts):
         prev = 'frame_%d' % j
     src += '\n\ndef frame_entry():\n    return %s()\n' % prev
     return src
+
+
+def _touched():
+    out = ['the agent ran application code while looking at a value: %s' % m for m in sorted(set(TOUCHED))]
+    del TOUCHED[:]
+    return out
 
 
 class CollectorRun:
@@ -276,11 +330,12 @@ class CollectorRun:
             rg.clock.auto = 10_000_000     # every clock reading advances 10 ms
 
             def body():
+                del TOUCHED[:]
                 out['res'] = rg.run(mod.frame_entry, only_file=path)
             th = threading.Thread(target=body)
             th.start()
             th.join(60)
-            return out.get('res'), rg.snapshots(), list(rg.escaped)
+            return out.get('res'), rg.snapshots(), list(rg.escaped) + _touched()
         finally:
             mod.VALS = None
             mod.FVALS = None
@@ -305,11 +360,12 @@ class CollectorRun:
                 acts.append(LocationAction('tp-coll-%d' % k, None, conf, LocationAction.ActionType.Snapshot))
             trig = Trigger(LineLocation(path.rsplit('/', 1)[-1], marks['frame'], Location.Position.START), acts)
             rg.install_triggers([trig])
+            del TOUCHED[:]
             res = rg.run(mod.frame_fn, only_file=path)
             by = {}
             for s_ in rg.snapshots():
                 by.setdefault(int(s_.tracepoint.id.rsplit('-', 1)[1]), []).append(s_)
-            return res, by, list(rg.escaped)
+            return res, by, list(rg.escaped) + _touched()
         finally:
             mod.VALS = None
             rg.close()
@@ -336,8 +392,9 @@ class CollectorRun:
                 act = LocationAction('tp-coll', None, conf, LocationAction.ActionType.Snapshot)
                 trig = Trigger(LineLocation(path.rsplit('/', 1)[-1], marks['frame'], Location.Position.START), [act])
                 rg.install_triggers([trig])
+            del TOUCHED[:]
             res = rg.run(mod.frame_fn, only_file=path)
-            return res, rg.snapshots(), list(rg.escaped)
+            return res, rg.snapshots(), list(rg.escaped) + _touched()
         finally:
             mod.VALS = None
             rg.close()
